@@ -66,7 +66,7 @@ def check(run):
             run.violation(sig, "the report with %d threads differs from the report with one thread: %s" % (case["options"]["nb_threads"], d[:300]),
                           {"case": case, "reference_case": next(c for c in cases if c["id"] == ref), "difference": d})
     two_runs_on_live_streams(run, live, results, cases)
-    # the recorded finding F24 (sibling suites sharing a rank are listed in arrival order), replayed on the real runner: two
+    # the finding F24 (sibling suites sharing a rank were listed in arrival order; repaired), replayed on the real runner: two
     # top-level suites of rank 0 (two directories without a module), two workers, the second suite's start event first
     wit = {"id": "f24_n", "project": F24_WITNESS, "sched": [2, 4, 1, 5, 6, 3], "options": {"nb_threads": 2, "stop_on_failure": False,
                                                                                           "force_disabled": False}}
@@ -122,8 +122,7 @@ def two_runs_on_live_streams(run, live, results, cases):
             continue
         case = next(c for c in cases if c["id"] == ref + "_n0")
         if has_suite_rank_ties(case["project"]):
-            run.count("live_stream_pairs_left_out_sibling_suites_share_a_rank")      # outside keys_distinct (finding F24)
-            continue
+            run.count("live_stream_pairs_whose_sibling_suites_share_a_rank")     # keys still distinct: (rank, position), repair F24
         try:
             p = tworuns.build_pair(a, b)
         except tworuns.Unusable as e:
